@@ -12,7 +12,7 @@ From Coq Require Import List Bool Arith.
 From Coq Require Import Strings.String Strings.Byte.
 From Falco Require Import Base.Bytes Gen.LintGen Model.Ignore Model.IgnoreSpec Model.IgnoreLegacy
   Proofs.IgnoreBasics Proofs.IgnoreSim Proofs.IgnoreExact Proofs.IgnoreNT Proofs.IgnoreRange Proofs.IgnoreRange2
-  Proofs.IgnoreParse Proofs.IgnoreExamples.
+  Proofs.IgnoreParse Proofs.IgnoreUnion Proofs.IgnoreExamples.
 Import ListNotations.
 Open Scope list_scope.
 
@@ -115,6 +115,28 @@ Theorem C12_parse_render :
   forall mk k L, forallb plain_rule L = true -> parse_ignore_comment (render mk k L) = Some (k, L).
 Proof. exact parse_render. Qed.
 
+(* SEVERAL DIRECTIVES IN FORCE AT ONCE.  The state is the union of what they name: after the rule lists L1 ... Ln have been
+   added to one of the three sets a rule is ignored iff it was before or one of the lists names it (an empty list names
+   every rule); ignore-everything is sticky - later rule lists do not switch it off; and the state in which a statement is
+   linted is the state before it plus everything its leading next-line / start comments and its trailing falco-ignore
+   comments name, whatever their number, order and rule lists (witness: Proofs/IgnoreExamples.v ex_stack) *)
+Theorem C12_ignore_rules_accumulate :
+  forall Ls a r, den (fold_left ignore_rules Ls a) r = den a r || existsb (fun L => named L r) Ls.
+Proof. exact ignore_rules_accumulate. Qed.
+
+Theorem C12_ignore_all_sticky :
+  forall Ls a, all (fold_left ignore_rules Ls a) = all a || existsb is_all Ls.
+Proof. exact ignore_all_sticky. Qed.
+
+Theorem C12_setup_statement_union :
+  forall m s r,
+    forallb (fun c => negb (is_end c)) (leading m) = true ->
+    is_enable r (setup_statement m s) =
+    is_enable r s
+    || existsb (fun c => names_next c r || names_start c r) (leading m)
+    || existsb (fun c => names_this c r) (trailing m).
+Proof. exact setup_statement_union. Qed.
+
 (* every rule name the linter declares (Gen/LintGen.v, regenerated from linter/rules.go) can be named in a directive: a
    rule list made of declared names, in any of the three comment forms, is read back as written *)
 Theorem C12_declared_rules_renderable :
@@ -203,3 +225,6 @@ Print Assumptions C12_unrepaired_unused_variable.
 Print Assumptions C12_range_open_top.
 Print Assumptions C12_declared_rules_renderable.
 Print Assumptions C12_unrepaired_open_range.
+Print Assumptions C12_ignore_rules_accumulate.
+Print Assumptions C12_ignore_all_sticky.
+Print Assumptions C12_setup_statement_union.
